@@ -148,7 +148,18 @@ def make_case(idx):
             steps.append(('N', cnt, None, None))
         else:
             steps.append(('^A', cnt if cnt != '3' else '', None, None))
-    if R.random() < 0.2:
+    if R.random() < 0.06:
+        # directed: one keyword, candidates that differ in case only, the option switched back and forth between repeats
+        lines = [R.choice(['foo', 'Foo', 'FOO', 'xfoo Foo', 'bar Foo foo', 'a', 'fOO foo', '']) for _ in range(R.randint(3, 8))]
+        nl = len(lines)
+        r = R.randrange(nl)
+        o = 0
+        noic = R.random() < 0.5
+        steps = [(R.choice(['/', '?']), '', ('lit', R.choice(['foo', 'Foo', 'FOO'])), None)]
+        for _ in range(R.randint(2, 5)):
+            steps.append(R.choice([('ic', '', None, None), ('noic', '', None, None)]))
+            steps.append(R.choice([('n', '', None, None), ('N', '', None, None), ('n', '2', None, None), ('/', '', None, None), ('?', '', None, None)]))
+    elif R.random() < 0.3:
         # between searches: the ignore-case option is switched (the pattern stays, its meaning changes), or a search prompt of either
         # direction is opened and given up (nothing was searched: direction, pattern and offset stay what they were)
         extra = []
